@@ -65,6 +65,12 @@ FnExprs(t) ==
              [k |-> "case", cs |-> <<[c |-> Fn2("lt", x, y), v |-> x], [c |-> Fn2("eq", x, y), v |-> LitI(0)], [c |-> p, v |-> y]>>, d |-> <<>>],
              Case1D(Fn1("is_null", x), LitI(0), Fn2("floordiv", y, x)),
              Case1D(Fn2("eq", x, LitI(2)), LitB(TRUE), p)>>
+        \* map: the first key (or key tuple) containing the value decides, the default / null otherwise
+        \o <<[k |-> "map", e |-> x, ks |-> <<<<LitI(2), LitI(7)>>, <<LitI(-1)>>>>, vs |-> <<LitI(10), y>>, d |-> <<LitI(0)>>],
+             [k |-> "map", e |-> x, ks |-> <<<<LitI(2)>>>>, vs |-> <<LitI(10)>>, d |-> <<>>],
+             [k |-> "map", e |-> x, ks |-> <<<<LitI(0)>>, <<LitI(0), LitI(1)>>>>, vs |-> <<y, Fn1("neg", y)>>, d |-> <<x>>],
+             [k |-> "map", e |-> Fn2("add", x, y), ks |-> <<<<LitI(0)>>, <<LitI(4), LitI(-4)>>>>, vs |-> <<LitI(1), LitI(2)>>, d |-> <<LitN>>],
+             [k |-> "map", e |-> p, ks |-> <<<<LitB(TRUE)>>>>, vs |-> <<x>>, d |-> <<y>>]>>
         \* floats (exact binary fractions)
         \o <<Fn2("add", f, x), Fn2("sub", f, f), Fn2("mul", f, LitI(2)), Fn2("truediv", f, LitI(2)), Fn2("lt", f, x), Fn2("eq", f, f),
              Fn1("neg", f), Fn1("abs", f), Fn1("floor", f), Fn1("ceil", f), FnN("hmax", <<f, x>>), Fn2("fill_null", f, LitI(0)),
